@@ -189,4 +189,37 @@ def twoSourceVisibilities (same : Bool) (r1 r2 : Steps2D α) (G : TwoSrc α) (δ
         visibilityOf (twoRate cols r1 r2 G δsi).2.2)
 
 end
+
+/-! ### by-name views of `HomTwoSourceResult<T>`
+
+`impl From<HomTwoSourceResult<T>> for HashMap<String, T>`, its opposite
+`impl From<HashMap<String, T>> for HomTwoSourceResult<T>` and the derived serde representation (a map with the
+field names as keys).  A `HashMap<String, T>` is modelled as an association list with distinct keys. -/
+
+/-- `hom::HomTwoSourceResult<T>` -/
+structure TwoRes (β : Type) where
+  ss : β
+  ii : β
+  si : β
+
+/-- `HashMap::from(result)`: three insertions, each field under its own name (also the serde map of the struct) -/
+def TwoRes.toNamed {β : Type} (r : TwoRes β) : List (String × β) :=
+  [("ss", r.ss), ("ii", r.ii), ("si", r.si)]
+
+/-- `HomTwoSourceResult::from(map)`: `map.get(name).cloned().unwrap_or(T::default())` per field -/
+def TwoRes.ofNamed {β : Type} (d : β) (m : List (String × β)) : TwoRes β :=
+  ⟨(m.lookup "ss").getD d, (m.lookup "ii").getD d, (m.lookup "si").getD d⟩
+
+/-- serde `Deserialize` of the struct from a map: every field is required, unknown keys are ignored -/
+def TwoRes.ofNamedStrict {β : Type} (m : List (String × β)) : Outcome (TwoRes β) :=
+  match m.lookup "ss", m.lookup "ii", m.lookup "si" with
+  | some a, some b, some c => .ok ⟨a, b, c⟩
+  | none, _, _ => .err "missing field `ss`"
+  | _, none, _ => .err "missing field `ii`"
+  | _, _, none => .err "missing field `si`"
+
+/-- the entries of a by-name view in key order (the canonical listing used on the wire) -/
+def namedSorted {β : Type} (m : List (String × β)) : List (String × β) :=
+  m.mergeSort fun a b => !(b.1 < a.1)
+
 end Spdc.Hom
